@@ -107,7 +107,7 @@ pub struct LayoutInfo {
 /// Comments that may stand inside a pragma directive: no `;` (it would end the directive), but
 /// carets and versions that must not count.
 const PRAGMA_COMMENTS: &[&str] = &[
-    "/* ^0.7.0 */", "/* was 0.7.6 */", "/* until 0.9.0 */", "/* >=0.4.0 <0.6.0 */", "/* ^ */", "/**/", "// ^0.5.0\n", "// 1.2.3 \n", "/* \u{e9}\u{4e16} ^1.0.0 */", "/* 0.8.4\n0.7.0 */",
+    "/* ^0.7.0 */", "/* was 0.7.6 */", "/* until 0.9.0 */", "/* >=0.4.0 <0.6.0 */", "/* ^ */", "/**/", "// ^0.5.0\n", "// 1.2.3 \n", "/* \u{e9}\u{4e16} ^1.0.0 */", "/* 0.8.4\n0.7.0 */", "/*/ was 0.7.0 before */", "/*/ ^0.9.1 */", "/* 0.7.1 **/", "/***/",
 ];
 
 /// A pragma value without its comments, white space normalised.
